@@ -41,7 +41,7 @@ import tempfile
 import threading
 import time
 
-GEN_DEPS = ["canonical_path", "remove_relative_path_marker", "is_relative_to", "get_sanitized_output_path", "is_path_valid"]
+GEN_DEPS = ["canonical_path", "remove_relative_path_marker", "is_relative_to", "get_sanitized_output_path", "is_path_valid", "is_real_path_inside"]
 LEVEL = "proof"
 TRUSTED_BASE = [
     "Coq 8.16.1 kernel, vm_compute (no native_compute); no axioms (Print Assumptions: closed)",
